@@ -301,6 +301,10 @@ pub struct Stats {
     pub free_list_reuse: usize,
 }
 
+pub fn type_id_table_pub() -> HashMap<TypeId, usize> {
+    type_id_table()
+}
+
 fn type_id_table() -> HashMap<TypeId, usize> {
     let mut m = HashMap::new();
     for t in 0..NTYPES {
